@@ -35,14 +35,89 @@ type deliverObs struct {
 	Got     [][]int `json:"got"`
 	Hang    bool    `json:"hang"`
 	Overlap bool    `json:"overlap"` // two Receive calls of the actor were in progress at once
+	// spawnrace: Spawn returned before Started had been handled
+	SpawnEarly bool `json:"spawn_early"`
 }
 
 type dmsg struct{ From, Seq int }
+
+// runSpawnRace: messages sent to a PID from the moment Spawn registered it, while its
+// Started handler is still running, must be retained and delivered after Started, in order;
+// and Spawn must not return before Started was handled.
+func runSpawnRace(c deliverCase) (any, error) {
+	e, err := actor.NewEngine(actor.NewEngineConfig())
+	if err != nil {
+		return nil, err
+	}
+	var mu sync.Mutex
+	got := [][]int{}
+	release := make(chan struct{})
+	done := make(chan struct{})
+	startedHandled := false
+	spawnReturned := make(chan bool, 1)
+	go func() {
+		e.SpawnFunc(func(ctx *actor.Context) {
+			switch m := ctx.Message().(type) {
+			case actor.Started:
+				<-release // hold the Started handler open while the sender works
+				mu.Lock()
+				got = append(got, []int{9, 0, 1})
+				startedHandled = true
+				mu.Unlock()
+			case dmsg:
+				mu.Lock()
+				got = append(got, []int{m.From, m.Seq, 1})
+				n := len(got)
+				mu.Unlock()
+				if n == c.PerSender+1 {
+					close(done)
+				}
+			}
+		}, "sink", actor.WithID("x"), actor.WithInboxSize(max(1, c.InboxSize)))
+		mu.Lock()
+		ok := startedHandled
+		mu.Unlock()
+		spawnReturned <- ok
+	}()
+	deadline := time.Now().Add(5 * time.Second)
+	var pid *actor.PID
+	for pid == nil && time.Now().Before(deadline) {
+		pid = e.Registry.GetPID("sink", "x")
+	}
+	obs := deliverObs{}
+	if pid == nil {
+		obs.Hang = true
+		close(release)
+		return obs, nil
+	}
+	for k := 1; k <= c.PerSender; k++ {
+		e.Send(pid, dmsg{0, k})
+	}
+	close(release)
+	select {
+	case <-done:
+	case <-time.After(5 * time.Second):
+		obs.Hang = true
+	}
+	select {
+	case ok := <-spawnReturned:
+		obs.SpawnEarly = !ok
+	case <-time.After(2 * time.Second):
+		obs.Hang = true
+	}
+	mu.Lock()
+	obs.Got = append([][]int{}, got...)
+	mu.Unlock()
+	return obs, nil
+}
 
 func runDeliver(raw json.RawMessage) (any, error) {
 	var c deliverCase
 	if err := json.Unmarshal(raw, &c); err != nil {
 		return nil, err
+	}
+	if c.Mode == "spawnrace" {
+		return runSpawnRace(c)
 	}
 	e, err := actor.NewEngine(actor.NewEngineConfig())
 	if err != nil {
